@@ -18,7 +18,7 @@ from vt.ref import peg
 
 ID = "C19"
 LEVEL = "exploration"
-CASES = {"quick": 5000, "thorough": 300000}
+CASES = {"quick": 4000, "thorough": 300000}
 RULE = ("generated grammars x configurations x 6 inputs (40% mutated), each parsed with memoization off and on (same "
         "memoizing metamodel for the whole sequence, first input repeated last); non-trivial: in the reference interpreter "
         "(a plain backtracking parser) some rule is attempted more than once at one position for some input; distinct by "
